@@ -6,6 +6,7 @@ Case text (also corpus / replay format): events separated by blanks
     s<k>:<v>,<k>:<v>,...  (or s-)   announcement carried by a sensor-data message (wire order)
     r<k>:<v>,...          (or r-)   announcement carried by a regulator-data message
     e<k>,<k>,...          (or e-)   `frame_errors` dispatched with these kinds (as async_setup does)
+    q<k>:<n>                        the public `request(name, kind, retries=n)` for a value that never arrives
 """
 import asyncio
 from asyncio import events as aio_events
@@ -73,6 +74,8 @@ def parse_case(text):
             evs.append((kind, entries))
         elif kind == "e":
             evs.append(("e", [] if body == "-" else [int(x) for x in body.split(",")]))
+        elif kind == "q":
+            evs.append(("q", tuple(int(x) for x in body.split(":"))))
         else:
             raise ValueError(w)
     return evs
@@ -83,13 +86,15 @@ def case_text(evs):
     for kind, body in evs:
         if kind == "e":
             out.append("e" + (",".join(map(str, body)) or "-"))
+        elif kind == "q":
+            out.append(f"q{body[0]}:{body[1]}")
         else:
             out.append(kind + (",".join(f"{k}:{v}" for k, v in body) or "-"))
     return " ".join(out)
 
 
 def lean_events(evs):
-    return [("e" if w[0] == "e" else "a") + w[1:] for w in case_text(evs).split()]
+    return [(w[0] if w[0] in "eq" else "a") + w[1:] for w in case_text(evs).split()]
 
 
 class Runner:
@@ -98,6 +103,7 @@ class Runner:
     def __init__(self):
         self.loop = vloop.new_loop()
         self.errors = []
+        self.n_req = 0
         self.loop.set_exception_handler(lambda loop, ctx: self.errors.append(ctx))
 
     def close(self):
@@ -113,6 +119,20 @@ class Runner:
             for kind, body in evs:
                 if kind == "e":
                     dev.dispatch_nowait("frame_errors", [FrameType(k) if is_known_frame_type(k) else k for k in body])
+                elif kind == "q":
+                    # the public request() helper for a value that never arrives: it gives up after its attempts
+                    self.n_req += 1
+
+                    async def req(k=body[0], n=body[1], name=f"never_{self.n_req}"):
+                        try:
+                            await dev.request(name, FrameType(k), retries=n, timeout=0.5)
+                        except ValueError:
+                            pass
+                        except Exception as e:  # noqa: BLE001
+                            anomalies.append(f"request() raised {type(e).__name__}")
+
+                    self.loop.create_task(req())
+                    self.loop.settle(until=self.loop.time() + 0.5 * body[1] + 0.25)
                 else:
                     payload = sensor_payload(body) if kind == "s" else regdata_payload(body)
                     cls = SensorDataMessage if kind == "s" else RegulatorDataMessage
@@ -212,8 +232,21 @@ def gen_cases(rng, tier):
         for ch in pat * rng.randint(1, 2):
             evs.append((ch, list(wa if ch == "s" else wb)))
         yield evs, "alternate"
+    # after set-up: a public request() that is never answered, then a changed version for that kind
+    for _ in range(120 if quick else 3000):
+        kinds = rng.sample(REQUESTS, rng.randint(1, 3))
+        unsup = rng.sample(SETUP, rng.choice([0, 0, 1, 2]))
+        evs = [("e", unsup)] if rng.random() < 0.8 else []
+        evs.append((rng.choice("sr"), [(k, 1) for k in kinds]))
+        for step_ in range(rng.randint(1, 3)):
+            evs.append(("q", (rng.choice(kinds + REQUESTS[:2]), rng.choice([1, 1, 2, 3]))))
+            evs.append((rng.choice("sr"), [(k, 2 + step_) if rng.random() < 0.8 else (k, 1 + step_) for k in kinds]))
+        yield evs, "failed-request"
     for _ in range(1000 if quick else 40000):
-        yield gen_case(rng), "random"
+        ev = gen_case(rng)
+        if rng.random() < 0.15:
+            ev.insert(rng.randrange(1, len(ev) + 1), ("q", (rng.choice(REQUESTS), rng.choice([1, 2]))))
+        yield ev, "random"
     for _ in range(200 if quick else 5000):
         yield gen_case(rng, foreign_p=0.12), "foreign"
     # every known / unknown code on its own, twice with the same and once with another version
@@ -237,14 +270,16 @@ def check_cases(res, cases):
         model = [] if ans == "." else [a.split("/") for a in ans.split(";")]
         model_q = [[] if q == "-" else [int(x) for x in q.split(",")] for q, _ in model]
         raised = any(r == "1" for _, r in model)
-        n_ann = sum(1 for k, _ in evs if k != "e")
-        nontrivial = n_ann >= 2 and any(obs) and any(not o for (k, _), o in zip(evs, obs) if k != "e")
+        n_ann = sum(1 for k, _ in evs if k in "sr")
+        nontrivial = n_ann >= 2 and any(obs) and any(not o for (k, _), o in zip(evs, obs) if k in "sr")
         res.case(text, nontrivial)
         res.count("label:" + label)
         res.count("announcements:%s" % ("1" if n_ann <= 1 else "2-4" if n_ann <= 4 else "5-11"))
         for (k, body), o in zip(evs, obs):
             if k == "e":
                 res.count("unsupported-set-size:%d" % len(body))
+            elif k == "q":
+                res.count("failed request() calls")
             else:
                 res.count("carrier:" + ("sensor-data" if k == "s" else "regulator-data"))
                 res.count("queued-per-announcement:%s" % (len(o) if len(o) < 4 else "4+"))
